@@ -1,6 +1,7 @@
 open Model
 open Util
 open Win
+open Slide
 
 let handle (toks : string list) : string =
   match toks with
